@@ -150,6 +150,11 @@ int main(int argc, char **argv) {
         else if (o[0] == 'R') slurp(0, 1);
         else if (o[0] == 'F') slurp(1, 1);
         else if (o[0] == 'S') note("S", o + 1);
+        else if (o[0] == 'G') {   /* the disposition of SIGPIPE this program was started with (inherited through fork and exec) */
+            struct sigaction sa;
+            sigaction(SIGPIPE, NULL, &sa);
+            note("S", sa.sa_handler == SIG_IGN ? "ign" : "dfl");
+        }
         else if (o[0] == 'f') slurp(1, 0);
         else if (o[0] == 'w') emit(atol(o + 1));
         else if (o[0] == 'W' || o[0] == 'E') {   /* one write call: lines of concurrent stages never interleave */
